@@ -983,6 +983,13 @@ namespace BitSerializer::Convert::Utf
 			return mStartDataPtr == mEndDataPtr && !mInputStream.good();
 		}
 
+		/// <summary>
+		/// Returns `true` when the stream has failed for a reason other than reaching the end (an I/O error).
+		/// </summary>
+		[[nodiscard]] bool IsFailed() const noexcept {
+			return mInputStream.bad() || (mInputStream.fail() && !mInputStream.eof());
+		}
+
 		[[nodiscard]] UtfType GetSourceUtfType() const noexcept {
 			return mUtfType;
 		}
